@@ -257,5 +257,3 @@ func modelString(rep *vc.FuncReport, ob *vc.Obligation) string {
 	return strings.Join(parts, " ")
 }
 
-func cmdCheck(args []string) int  { fmt.Println("not yet"); return 2 }
-func cmdReplay(args []string) int { fmt.Println("not yet"); return 2 }
